@@ -54,7 +54,7 @@ void carquet_arena_destroy(carquet_arena_t *arena) {
 
 char *carquet_arena_strdup(carquet_arena_t *arena, const char *str) {
   __CPROVER_precondition(__CPROVER_w_ok(arena, sizeof(*arena)), "arena_strdup: arena writable");
-  cqv_strdup_calls++;
+  if (cqv_strdup_calls < 1000) cqv_strdup_calls++;
   cqv_strdup_src = str;
   cqv_strdup_ret = NULL;
   if (!str) return NULL;
@@ -72,8 +72,8 @@ void *carquet_arena_calloc(carquet_arena_t *arena, size_t count, size_t size) {
   __CPROVER_precondition(__CPROVER_w_ok(arena, sizeof(*arena)), "arena_calloc: arena writable");
   size_t total = count * size;
   if (count != 0 && total / count != size) return NULL;
+  if (total == 0) return NULL;   /* as the real arena: a zero-byte request yields NULL */
   if (nondet_bool()) return NULL;
-  /* the real arena returns a non-NULL pointer for a zero-byte request */
   return __CPROVER_allocate(total, 1);
 }
 
@@ -87,7 +87,7 @@ void carquet_error_set(carquet_error_t *error, carquet_status_t code, const char
   error->function = function;
   __CPROVER_havoc_slice(error->message, CARQUET_ERROR_MESSAGE_MAX);
   error->message[CARQUET_ERROR_MESSAGE_MAX - 1] = 0;
-  cqv_error_sets++;
+  if (cqv_error_sets < 1000) cqv_error_sets++;
 }
 
 int __CPROVER_uninterpreted_cqv_strcmp(const char *a, const char *b);
